@@ -1,0 +1,36 @@
+//go:build verif
+
+package geom
+
+// C20: emptiness is structural; a collection is empty iff every member is.
+
+//@ prop C20
+
+//@ pred PtEmpty(p) = !p.full
+//@ pred LSEmpty(l) = len(l.seq.floats) == 0
+//@ pred PolyEmpty(p) = len(p.rings) == 0
+//@ pred MPEmpty(m) = forall k :: 0 <= k && k < len(m.points) ==> !m.points[k].full
+//@ pred MLSEmpty(m) = forall k :: 0 <= k && k < len(m.lines) ==> len(m.lines[k].seq.floats) == 0
+//@ pred MPolyEmpty(m) = forall k :: 0 <= k && k < len(m.polys) ==> len(m.polys[k].rings) == 0
+//@ recpred GEmpty(g) = g.ptr == nil || (g.gtype == 0 && (forall k :: 0 <= k && k < len(deref(g.ptr, GeometryCollection).geoms) ==> GEmpty(deref(g.ptr, GeometryCollection).geoms[k]))) || (g.gtype == 1 && PtEmpty(deref(g.ptr, Point))) || (g.gtype == 2 && LSEmpty(deref(g.ptr, LineString))) || (g.gtype == 3 && PolyEmpty(deref(g.ptr, Polygon))) || (g.gtype == 4 && MPEmpty(deref(g.ptr, MultiPoint))) || (g.gtype == 5 && MLSEmpty(deref(g.ptr, MultiLineString))) || (g.gtype == 6 && MPolyEmpty(deref(g.ptr, MultiPolygon)))
+
+//@ func Point.IsEmpty
+//@   ensures result <==> PtEmpty(p)
+//@ func LineString.IsEmpty
+//@   ensures result <==> LSEmpty(s)
+//@ func Polygon.IsEmpty
+//@   ensures result <==> PolyEmpty(p)
+//@ func MultiPoint.IsEmpty
+//@   ensures result <==> MPEmpty(m)
+//@   loop 0 invariant -1 <= rangeindex && (forall k :: 0 <= k && k <= rangeindex ==> !m.points[k].full)
+//@ func MultiLineString.IsEmpty
+//@   ensures result <==> MLSEmpty(m)
+//@   loop 0 invariant -1 <= rangeindex && (forall k :: 0 <= k && k <= rangeindex ==> len(m.lines[k].seq.floats) == 0)
+//@ func MultiPolygon.IsEmpty
+//@   ensures result <==> MPolyEmpty(m)
+//@   loop 0 invariant -1 <= rangeindex && (forall k :: 0 <= k && k <= rangeindex ==> len(m.polys[k].rings) == 0)
+//@ func GeometryCollection.IsEmpty
+//@   ensures result <==> (forall k :: 0 <= k && k < len(c.geoms) ==> GEmpty(c.geoms[k]))
+//@   loop 0 invariant -1 <= rangeindex && (forall k :: 0 <= k && k <= rangeindex ==> GEmpty(c.geoms[k]))
+//@ func Geometry.IsEmpty
+//@   ensures result <==> GEmpty(g)
